@@ -383,6 +383,28 @@ def oracle_empty():
             return 'an empty inferred PolyDomain {x0^2 <= 0.5, x0^2 == 1} was not detected at construction'
         except (RuntimeError, ValueError):
             pass
+        # a domain given by coniclifts constraints whose exponents carry CONSTANT shifts, exp(x0 - 1) + 2 exp(x1 + 2) <= 1, x >= -6: the conic data, the
+        # membership test and the support function describe that set; the shifted empty set {exp(z + 3) <= 1, z >= -1} is reported
+        xs_ = cl.Variable(shape=(2,), name='shift_dom_x')
+        Xs = SigDomain(2, coniclifts_cons=[cl.weighted_sum_exp(np.array([1.0, 2.0]), xs_ + np.array([-1.0, 2.0])) <= 1, xs_ >= -6])
+        want_sf = 1.0 + math.log(1.0 - 2.0 * math.exp(-4.0))
+        sf = Xs.suppfunc(np.array([1.0, 0.0]))
+        if abs(sf - want_sf) > 1e-4:
+            return 'X = {exp(x0 - 1) + 2 exp(x1 + 2) <= 1, x >= -6}: suppfunc(e0) = %r, the closed form is %r' % (sf, want_sf)
+        for pt, inside in (((0.5, -4.0), True), ((0.9, -5.9), True), ((1.5, -5.0), False), ((0.0, -2.0), False)):
+            val_ = math.exp(pt[0] - 1.0) + 2.0 * math.exp(pt[1] + 2.0)
+            xa = cl.Variable(shape=(Xs.A.shape[1],), name='shift_dom_lift')
+            stf = cl.Problem(cl.MIN, cl.Expression([0]), [cl.PrimalProductCone(Xs.A @ xa + Xs.b, Xs.K), xa[:2] == np.array(pt)]).solve(verbose=False)
+            conic_in = (stf[0] == 'solved' and stf[1] < 1e-6)
+            if conic_in != inside:
+                return ('X = {exp(x0 - 1) + 2 exp(x1 + 2) <= 1, x >= -6}: the point %s (left-hand side %g) is %s the set but the conic data (A, b, K) of X %s it'
+                        % (pt, val_, 'in' if inside else 'outside', 'accept' if conic_in else 'reject'))
+        zs_ = cl.Variable(shape=(1,), name='shift_dom_z')
+        try:
+            SigDomain(1, coniclifts_cons=[cl.weighted_sum_exp(np.array([1.0]), zs_ + 3.0) <= 1, zs_ >= -1])
+            return 'the empty set {exp(z + 3) <= 1, z >= -1} was accepted at construction'
+        except RuntimeError:
+            pass
         # a badly scaled convexifiable constraint, 1 - 2e-9 exp(4 x0) >= 0 (i.e. x0 <= log(5e8)/4 = 5.0075): a term with a small coefficient is a term
         yt = so.standard_sig_monomials(2)
         for coef in (2e-9, 2.0 ** -29):
